@@ -457,6 +457,89 @@ def binop_items(tier, seed):
     return items
 
 
+# ------------------------------------------------------------------------------------------------------
+# scalar bindings: wherever a scalar class accepts a TUPLE in place of an object of its own class (operators,
+# comparisons, setValue, the class-level hsv2rgb/rgb2hsv ...), the tuple form must give what the object form gives
+# ("the scalar bindings return what the C++ library returns": the object form is the C++ operation)
+TUPLE_CLASSES = [n for n in ("V2s", "V2i", "V2f", "V2d", "V3s", "V3i", "V3f", "V3d", "V4s", "V4i", "V4f", "V4d", "Color3f", "Color3c", "Color4f", "Color4c") if hasattr(imath, n)]
+_TUPLE_SKIP = {"__init__", "__new__", "__class__", "__reduce__", "__reduce_ex__", "__setattr__", "__delattr__", "__getattribute__", "__init_subclass__", "__subclasshook__", "__dir__",
+               "__sizeof__", "__format__", "__getitem__", "__setitem__", "__hash__", "__repr__", "__str__", "__doc__", "__module__", "__dict__", "__weakref__", "__instance_size__",
+               "__len__", "__copy__", "__deepcopy__", "__getstate__"}
+
+
+def interp_tuple(p):
+    kn = TUPLE_CLASSES[p["cls"] % len(TUPLE_CLASSES)]
+    K = getattr(imath, kn)
+    n = int([ch for ch in kn if ch.isdigit()][0])
+    a, b = p["a"], p["b"]
+    isf = kn.endswith(("f", "d"))
+    col = kn.startswith("Color")
+    def vals(seed, distinct):
+        out = []
+        for i in range(n):
+            k = 2 + (seed * (i + 2) + 3 * i * distinct) % 9   # >= 2: relation 3 subtracts 1 and integer divisors must stay non-zero
+            out.append((k * 0.125 if col else k * 0.25 + 0.0625 * i) if isf else k)
+        return out
+    va = vals(a, 1)
+    vb = vals(b + (0 if p["relation"] == 0 else 1), 2)
+    if p["relation"] == 1:      # b >= a component-wise, equal in all but the last component
+        vb = list(va[:-1]) + [va[-1] + (0.25 if isf else 1)]
+    elif p["relation"] == 2:    # equal
+        vb = list(va)
+    elif p["relation"] == 3:    # equal in all but the last component, which is smaller
+        vb = list(va[:-1]) + [va[-1] - (0.0625 if isf else 1)]
+    labels = set([kn, "relation_%d" % p["relation"]])
+    tried = 0
+    for m in sorted(set(dir(K))):
+        if m in _TUPLE_SKIP:
+            continue
+        # binary: a.m(b) against a.m(tuple(b))
+        try:
+            oa, ob = K(*va), K(*vb)
+            f = getattr(oa, m)
+            if callable(f):
+                ro = f(ob)
+                oa2 = K(*va)
+                rt = getattr(oa2, m)(tuple(vb))
+                if ro is not NotImplemented and rt is not NotImplemented:
+                    tried += 1
+                    labels.add("binary")
+                    if canon_elem(ro) != canon_elem(rt) or canon_elem(oa) != canon_elem(oa2):
+                        raise Violation("tuple-form/differs-from-object-form", "%s%r.%s(%s%r) = %s (object afterwards %s) but with the tuple %r: %s (object afterwards %s)" % (kn, tuple(va), m, kn, tuple(vb), canon_elem(ro), canon_elem(oa), tuple(vb), canon_elem(rt), canon_elem(oa2)))
+        except Violation:
+            raise
+        except Exception:
+            pass
+        # unary through the class, with a tuple in place of the object: K.m(tuple(a)) against K(*a).m()
+        try:
+            oa = K(*va)
+            f = getattr(oa, m)
+            if callable(f):
+                ro = f()
+                rt = getattr(K, m)(tuple(va))
+                tried += 1
+                labels.add("unary_through_class")
+                if canon_elem(ro) != canon_elem(rt):
+                    raise Violation("tuple-form/differs-from-object-form", "%s%r.%s() = %s but %s.%s(%r) = %s" % (kn, tuple(va), m, canon_elem(ro), kn, m, tuple(va), canon_elem(rt)))
+        except Violation:
+            raise
+        except Exception:
+            pass
+    if tried:
+        labels.add("some_tuple_form_exists")
+    return dict(nontrivial=tried > 0, labels=sorted(labels), desc="%s a=%r b=%r relation %d: %d tuple forms compared" % (kn, tuple(va), tuple(vb), p["relation"], tried))
+
+
+def tuple_items(tier, seed):
+    items = []
+    for ci in range(len(TUPLE_CLASSES)):
+        for rel in range(4):
+            for r in range(2 if tier != "thorough" else 12):
+                s_ = (ci * 17 + rel * 5 + r * 11 + seed) % 101
+                items.append(dict(cls=ci, relation=rel, a=1 + s_ % 13, b=2 + (s_ * 3) % 11))
+    return items
+
+
 def race_items(tier, seed):
     """every catalogue entry and array constructor once (thorough: 3 schedules), above the dispatch threshold, under a
     truly concurrent schedule with >= 3 worker threads and >= 4 chunks; argument values repeat with period 9"""
@@ -487,6 +570,9 @@ GROUPS = [] if RACE_PASS else [
     Group("reflected_ops", None, interp_binop, 0, 0,
           "complete sweep of the %d array-valued binary expressions that are answered by a SCALAR class's reflected operator (FloatArray * V3f, V3f * FloatArray, V3fArray * Quatf ...: the array class returns NotImplemented, so no array method or module function covers them) x lengths {2, 257} (thorough: {0,1,2,201,257,1000}) x array operand laid out plainly / as a masked reference / as a strided member view: every element equals the scalar operation on that element, the operand is untouched, the result does not depend on an installed pool; non-trivial = more than 2 elements" % len(BCAT),
           required_labels=["scalar_oracle_exact", "array_plain", "array_masked", "array_strided", "array_left", "array_right"], items=binop_items),
+    Group("tuple_forms", None, interp_tuple, 0, 0,
+          "scalar bindings of %d vector / colour classes: every method or operator that accepts a tuple in place of an object of the class (binary: a.m(b) vs a.m(tuple(b)); through the class: K.m(tuple(a)) vs K(*a).m()) on generated component values in four relations (generic, >= with equality in all but the last component, equal, <= likewise) must return what the object form returns and leave the subject in the same state; non-trivial = at least one tuple form exists for the class" % len(TUPLE_CLASSES),
+          required_labels=["binary", "unary_through_class", "some_tuple_form_exists", "relation_1", "relation_3"], items=tuple_items),
 ]
 if RACE_PASS:
     GROUPS = [
